@@ -440,23 +440,36 @@ def _pkey(pl):
     return (pl["l"], tuple(out))
 
 
-def infeasible_variant_edges(fn):
-    """Switch edges that no execution can take because the scrutinee place certainly holds another enum
-    variant there: a forward *must* analysis over the (already pruned) CFG.  A place is known to hold variant
-    i after it was assigned an aggregate of that variant (directly or through a local with that single
-    definition), on the i-edge of an earlier switch on its discriminant, and on the edges of a boolean switch
-    fed by `is_some / is_none / is_ok / is_err(&place)` (copies and `!` of the flag followed).  Knowledge about
-    a place dies with any write to its base local, a `&mut` / raw borrow of it, a move out of it, a drop, or a
-    call that receives a mutable reference derived from it.  Facts meet by intersection, so a loop or a join
-    only keeps what holds on every path.  Returns a set of (switch_bb, target_bb).
+class VariantFlow:
+    """Result of variant_flow: `dead` = switch edges no execution takes, `visited` = blocks some execution reaches,
+    `used` = number of tests that were decided by the caller's assumption."""
 
-    This is what makes `if x.is_none() { x = Some(..) } match x { Some(v) => v, None => unreachable!() }`
-    equivalent to `x.get_or_insert_with(..)` for the panic census: the None arm is dead code."""
-    cached = getattr(fn, "_c16_infeasible", None)
-    if cached is not None:
-        return cached
+    def __init__(self, fn, dead, visited, used):
+        self.fn, self.dead, self.visited, self.used = fn, dead, visited, used
+        self.reach = fn.reachable(0, avoid_edges=dead) if dead else fn.reachable(0)
+
+
+def variant_flow(fn, assume=None):
+    """Sparse conditional propagation of *which enum variant a place holds* (and of the boolean flags computed
+    from that) over the already pruned CFG: a forward must analysis that only follows edges an execution can take.
+
+    A place is known to hold variant i after it was assigned an aggregate of that variant (directly or through a
+    local with that single definition, or a copy of a known place), on the i-edge of an earlier switch on its
+    discriminant, and on the edges of a boolean switch fed by `is_some / is_none / is_ok / is_err(&place)`.
+    Booleans are followed through copies, `!`, literal `true` / `false` assignments (`let f = matches!(..)`) and
+    `==` / `!=` between two places of known variants.  Knowledge about a place dies with any write to its base
+    local, a `&mut` / raw borrow of it, a move out of it, a drop, or a call that receives a mutable reference
+    derived from it.  Facts meet by intersection, so a loop or a join only keeps what holds on every path.
+
+    `assume(place) -> variant index | None` adds a hypothesis ("the configured mode is Detached"): the result then
+    describes the executions under that hypothesis, whatever the idiom that tests the value (match, if let,
+    matches!, `==`, a named flag, early return).
+
+    Without an assumption this is what makes `if x.is_none() { x = Some(..) } match x { Some(v) => v, None =>
+    unreachable!() }` equivalent to `x.get_or_insert_with(..)` for the panic census: the None arm is dead code."""
     defs = fn.defs()
     nblk = len(fn.blocks)
+    used = [0]
 
     def mut_roots(op):
         """Base locals that a call receiving `op` may write through (the operand is, or is built from, a
@@ -497,7 +510,7 @@ def infeasible_variant_edges(fn):
         return out
 
     def kill(state, l):
-        for k in [k for k in state if (k[0] == "p" and k[1][0] == l) or (k[0] in ("v", "b") and k[1] == l) or
+        for k in [k for k in state if (k[0] == "p" and k[1][0] == l) or (k[0] in ("v", "b", "c") and k[1] == l) or
                   (k[0] == "b" and state[k][0][0] == l)]:
             del state[k]
 
@@ -510,7 +523,33 @@ def infeasible_variant_edges(fn):
             return ds[0][2]["rv"]["pl"]
         return None
 
-    def transfer(bb, state):
+    def known(state, pl, count=False, depth=0):
+        """variant index the place certainly holds here (state, single-definition aggregate, or the assumption)."""
+        pk = _pkey(pl)
+        if pk is not None and ("p", pk) in state:
+            return state[("p", pk)]
+        if not pl["p"]:
+            kv = fn._known_variant_of({"k": "copy", "pl": pl}, defs)
+            if kv is not None:
+                return kv[1]
+        if pl["p"] == ["*"] and depth < 3:      # `*r` with `r = &P`
+            p2 = ref_target({"k": "copy", "pl": {"l": pl["l"], "p": []}})
+            if p2 is not None:
+                return known(state, p2, count, depth + 1)
+        if assume is not None:
+            v = assume(pl)
+            if v is not None:
+                if count:
+                    used[0] += 1
+                return v
+        return None
+
+    def fieldless(t):
+        m = re.match(r"^<(.+) as [\w:]*PartialEq(<.*>)?>::(eq|ne)$", t.get("resolved") or "")
+        a = fn.facts.adts.get(fn.facts.adt_of_type(m.group(1))) if m else None
+        return bool(a) and a.get("kind") == "enum" and all(not v["fields"] for v in a["variants"])
+
+    def transfer(bb, state, count=False):
         """state after the statements and the terminator's own effects; plus per-target additions."""
         state = dict(state)
         blk = fn.blocks[bb]
@@ -526,22 +565,28 @@ def infeasible_variant_edges(fn):
                         if v["name"] == rv["variant"]:
                             gen = ("p", i)
             elif rv["rv"] == "use" and rv["op"].get("k") in ("copy", "move"):
-                kv = fn._known_variant_of(rv["op"], defs)
-                sk = _pkey(rv["op"]["pl"])
+                src = rv["op"]["pl"]
+                kv = known(state, src)
                 if kv is not None:
-                    gen = ("p", kv[1])
-                elif sk is not None and ("p", sk) in state:
-                    gen = ("p", state[("p", sk)])
-                elif not rv["op"]["pl"]["p"] and ("b", rv["op"]["pl"]["l"]) in state:
-                    gen = ("b", state[("b", rv["op"]["pl"]["l"])])
-            elif rv["rv"] == "unop" and rv["op"] == "Not" and rv["a"].get("k") in ("copy", "move") and not rv["a"]["pl"]["p"] \
-                    and ("b", rv["a"]["pl"]["l"]) in state:
-                pk, vt, vf = state[("b", rv["a"]["pl"]["l"])]
-                gen = ("b", (pk, vf, vt))
+                    gen = ("p", kv)
+                elif not src["p"] and ("b", src["l"]) in state:
+                    gen = ("b", state[("b", src["l"])])
+                elif not src["p"] and ("c", src["l"]) in state:
+                    gen = ("c", state[("c", src["l"])])
+            elif rv["rv"] == "use" and rv["op"].get("k") == "const" and rv["op"].get("ty") == "bool" and not rv["op"].get("path") \
+                    and "int" in (rv["op"].get("val") or {}):
+                gen = ("c", 1 if rv["op"]["val"]["int"] else 0)
+            elif rv["rv"] == "unop" and rv["op"] == "Not" and rv["a"].get("k") in ("copy", "move") and not rv["a"]["pl"]["p"]:
+                al = rv["a"]["pl"]["l"]
+                if ("b", al) in state:
+                    pk, vt, vf = state[("b", al)]
+                    gen = ("b", (pk, vf, vt))
+                elif ("c", al) in state:
+                    gen = ("c", 1 - state[("c", al)])
             elif rv["rv"] == "discr":
-                sk = _pkey(rv["pl"])
-                if sk is not None and ("p", sk) in state:
-                    gen = ("v", state[("p", sk)])
+                kv = known(state, rv["pl"], count)
+                if kv is not None:
+                    gen = ("v", kv)
             if rv["rv"] in ("ref", "rawptr") and (rv["rv"] == "rawptr" or rv.get("mut")):
                 kill(state, rv["pl"]["l"])
             if rv["rv"] == "use" and rv["op"].get("k") == "move":
@@ -551,22 +596,37 @@ def infeasible_variant_edges(fn):
                 wk = _pkey(w)
                 if gen[0] == "p" and wk is not None and "*" not in wk[1][1:]:
                     state[("p", wk)] = gen[1]
-                elif gen[0] in ("b", "v") and not w["p"]:
+                elif gen[0] in ("b", "v", "c") and not w["p"]:
                     state[(gen[0], w["l"])] = gen[1]
         t = blk["term"]
         per_target = {}
         if t["t"] == "call":
+            c = t.get("callee") or ""
+            cmp_gen = None
+            m = re.search(r"cmp::PartialEq::(eq|ne)$", c)
+            if m and len(t["args"]) == 2 and not t["dest"]["p"]:
+                vs = []
+                for a in t["args"]:
+                    p = ref_target(a)
+                    vs.append(known(state, p, count) if p is not None else None)
+                if vs[0] is not None and vs[1] is not None and (vs[0] != vs[1] or fieldless(t)):
+                    cmp_gen = int((vs[0] == vs[1]) == (m.group(1) == "eq"))
             for a in t["args"]:
                 for l in mut_roots(a):
                     kill(state, l)
             kill(state, t["dest"]["l"])
-            c = t.get("callee") or ""
+            if cmp_gen is not None:
+                state[("c", t["dest"]["l"])] = cmp_gen
             for suffix, (adt, vt, vf) in _VARIANT_TESTS.items():
                 if c.endswith(suffix) and t["args"] and not t["dest"]["p"]:
                     p = ref_target(t["args"][0])
                     pk = _pkey(p) if p is not None else None
                     if pk is not None:
-                        state[("b", t["dest"]["l"])] = (pk, vt, vf)
+                        kv = known(state, p)
+                        if kv is not None:
+                            state[("c", t["dest"]["l"])] = int(kv == vt)
+                        else:
+                            state[("b", t["dest"]["l"])] = (pk, vt, vf)
         elif t["t"] == "drop":
             kill(state, t["pl"]["l"])
         elif t["t"] == "yield":
@@ -579,6 +639,8 @@ def infeasible_variant_edges(fn):
             only = None
             if ("v", dl) in state:
                 only = fn.switch_target(bb, state[("v", dl)])
+            elif ("c", dl) in state:
+                only = fn.switch_target(bb, state[("c", dl)])
             elif ("b", dl) in state:
                 pk, vt, vf = state[("b", dl)]
                 tb, fb = fn.bool_edges(bb)
@@ -617,8 +679,7 @@ def infeasible_variant_edges(fn):
         bb = work.pop()
         steps += 1
         if steps > 40 * nblk + 1000:
-            fn._c16_infeasible = set()     # no fixed point within the bound: claim nothing
-            return fn._c16_infeasible
+            return VariantFlow(fn, set(), set(fn.reachable(0)), 0)     # no fixed point within the bound: claim nothing
         if fn.blocks[bb]["cleanup"]:
             continue
         out, per = transfer(bb, ins[bb])
@@ -638,14 +699,21 @@ def infeasible_variant_edges(fn):
                     work.append(s)
     dead = set()
     for bb in ins:
-        if fn.blocks[bb]["cleanup"] or fn.blocks[bb]["term"]["t"] != "switch":
+        if fn.blocks[bb]["cleanup"]:
             continue
-        out, per = transfer(bb, ins[bb])
+        out, per = transfer(bb, ins[bb], count=True)
         only = per.get("only")
         if only is not None:
             dead |= set((bb, s) for s in fn.succ(bb) if s != only)
-    fn._c16_infeasible = dead
-    return dead
+    return VariantFlow(fn, dead, set(ins), used[0])
+
+
+def infeasible_variant_edges(fn):
+    """Switch edges of fn that no execution can take (variant_flow without an assumption); cached."""
+    cached = getattr(fn, "_c16_infeasible", None)
+    if cached is None:
+        cached = fn._c16_infeasible = variant_flow(fn).dead
+    return cached
 
 
 def live_blocks(fn):
